@@ -154,6 +154,8 @@ struct State {
     finished: bool,
     max_live: usize,
     step_limit_hit: bool,
+    /// nobody holds the baton: the only live task is executing a detached call
+    baton_free: bool,
 }
 
 pub struct Sim {
@@ -316,6 +318,13 @@ impl Sim {
                 if let Some(t) = early {
                     break Some(t);
                 }
+                // The deciding task has just detached itself and nothing else can run: it must go
+                // and make its call (waiting here would be waiting for itself). The baton stays
+                // free; the task takes it back when it re-attaches.
+                if matches!(st.tasks[me].status, Status::Detached { returned: false, .. }) {
+                    st.baton_free = true;
+                    return;
+                }
                 let any_detached = st
                     .live
                     .iter()
@@ -461,6 +470,7 @@ pub fn run<F: FnOnce()>(cfg: Config, main: F) -> Report {
             finished: false,
             max_live: 1,
             step_limit_hit: false,
+            baton_free: false,
         }),
         fin: Condvar::new(),
     });
@@ -670,6 +680,14 @@ fn reattach_if_detached() {
             f();
         }
         slot = st.tasks[me].slot.clone();
+        if st.baton_free {
+            // nobody else could run while the call was out: take the baton back directly
+            st.baton_free = false;
+            st.tasks[me].info &= !CHOSEN_BIT;
+            st.tasks[me].status = Status::Running;
+            st.current = me;
+            return;
+        }
         if st.tasks[me].info & CHOSEN_BIT != 0 {
             // already chosen by the scheduler: the baton is ours, the wake flag is set
         } else if let Status::Detached { desc, .. } = &st.tasks[me].status {
